@@ -430,6 +430,7 @@ type caEvent struct {
 	idx   int
 	mode  string
 	fault bool
+	tick  bool // m: a maintenance pass of the process the latest start-up left running
 	// tampering between two start-ups (not an interruption): delete a value / copy one over another
 	tamper   string // "" | d | c
 	src, dst string
@@ -469,10 +470,10 @@ func parseCAEvents(s string) ([]caEvent, bool) {
 			out = append(out, caEvent{tamper: "c", src: src, dst: dst})
 			continue
 		}
-		if len(a) != 2 || (a[0] != "s" && a[0] != "l") {
+		if len(a) != 2 || (a[0] != "s" && a[0] != "l" && a[0] != "m") {
 			return nil, false
 		}
-		ev := caEvent{life: a[0]}
+		ev := caEvent{life: a[0], tick: a[0] == "m"}
 		if a[1] != "-" {
 			if len(a[1]) < 3 {
 				return nil, false
@@ -528,6 +529,7 @@ type startResult struct {
 	ikey  crypto.Signer
 	rkey  crypto.Signer
 	rkErr error
+	app   *caddypki.PKI // the running instance (kind ok)
 	// the intermediate pair held between Provision and Start does not match (seen only after
 	// an interrupted renewal; Start's own renewal replaces it)
 	mismatchBeforeStart bool
@@ -543,10 +545,60 @@ func pkiJSON(life string) json.RawMessage {
 }
 
 // startOnce = one start-up of the pki app (Provision, then Start) on theStore.
-func startOnce(ev caEvent) (res startResult) {
+// observe reads what a running instance holds in memory.
+func observe(app *caddypki.PKI) startResult {
+	ca := app.CAs[caID]
+	r := startResult{kind: "ok", root: ca.RootCertificate(), inter: ca.IntermediateCertificate(), app: app}
+	if k, ok := ca.IntermediateKey().(crypto.Signer); ok {
+		r.ikey = k
+	}
+	// RootKey() goes to storage: observe without logging or faults
+	theStore.quiet = true
+	rk, err := ca.RootKey()
+	theStore.quiet = false
+	if s, ok := rk.(crypto.Signer); ok && err == nil {
+		r.rkey = s
+	} else {
+		r.rkErr = err
+	}
+	return r
+}
+
+// tickOnce = one maintenance pass (renewCerts, through the hook VerifRenewCerts) of a running instance.
+func tickOnce(app *caddypki.PKI, ev caEvent) (res startResult) {
+	if ev.fault {
+		theStore.begin(ev.idx, ev.mode)
+	} else {
+		theStore.begin(0, "")
+	}
+	done := make(chan startResult, 1)
+	go func() {
+		defer func() {
+			if p := recover(); p != nil {
+				if _, ok := p.(crashSignal); ok {
+					done <- startResult{kind: "crash"}
+					return
+				}
+				done <- startResult{kind: "err", class: "panic", msg: fmt.Sprint(p)}
+			}
+		}()
+		app.VerifRenewCerts()
+		done <- observe(app)
+	}()
+	select {
+	case res = <-done:
+	case <-time.After(20 * time.Second):
+		res = startResult{kind: "err", class: "timeout"}
+	}
+	return res
+}
+
+// startOnce = one start-up of the pki app (Provision, then Start) on theStore. The instance keeps
+// running until stop is called.
+func startOnce(ev caEvent) (res startResult, stop func()) {
 	b, err := base()
 	if err != nil {
-		return startResult{kind: "err", class: "harness-base-context", msg: err.Error()}
+		return startResult{kind: "err", class: "harness-base-context", msg: err.Error()}, func() {}
 	}
 	if ev.fault {
 		theStore.begin(ev.idx, ev.mode)
@@ -554,7 +606,6 @@ func startOnce(ev caEvent) (res startResult) {
 		theStore.begin(0, "")
 	}
 	ctx, cancel := caddy.NewContext(b)
-	defer cancel()
 	done := make(chan startResult, 1)
 	go func() {
 		var r startResult
@@ -586,27 +637,14 @@ func startOnce(ev caEvent) (res startResult) {
 			r = startResult{kind: "err", class: "start", msg: err.Error()}
 			return
 		}
-		ca := app.CAs[caID]
-		r = startResult{kind: "ok", root: ca.RootCertificate(), inter: ca.IntermediateCertificate()}
-		if k, ok := ca.IntermediateKey().(crypto.Signer); ok {
-			r.ikey = k
-		}
-		// RootKey() goes to storage: observe without logging or faults
-		theStore.quiet = true
-		rk, err := ca.RootKey()
-		theStore.quiet = false
-		if s, ok := rk.(crypto.Signer); ok && err == nil {
-			r.rkey = s
-		} else {
-			r.rkErr = err
-		}
+		r = observe(app)
 	}()
 	select {
 	case res = <-done:
 	case <-time.After(20 * time.Second):
 		res = startResult{kind: "err", class: "timeout"}
 	}
-	return res
+	return res, cancel
 }
 
 func samePub(a, b crypto.PublicKey) bool {
@@ -729,10 +767,21 @@ func runCA(line, hist string) core.Outcome {
 		blobs: map[[32]byte]decoded{}, chains: map[[32]byte]string{}}
 	var o core.Outcome
 	var toks []tok
+	// a renewal whose certificate write reported an error AFTER taking effect, in a process that
+	// kept running (the error is only logged): from then on that process's memory and the storage
+	// disagree, and its next maintenance pass is the known defect recorded in known_findings.jsonl
+	unsynced := false
 	fail := func(class, what string) {
+		if unsynced && (class == "ca-inconsistent-chain-after-startup" || class == "ca-store-incomplete-after-startup" ||
+			class == "ca-intermediate-changed-without-renewal") {
+			class = "ca-unsynced-runtime-renewal-after-reported-failed-cert-write"
+		}
 		o.Failures = append(o.Failures, core.Failure{Case: line, Class: class, What: what})
 	}
 	tags := map[string]bool{}
+	var running *caddypki.PKI // the process the latest start-up left running
+	stopRunning := func() {}
+	defer func() { stopRunning() }()
 	var stableRC, stableRK []byte // root as of the first successful start-up
 	rootFixed := false
 	anyFault := false
@@ -770,13 +819,56 @@ func runCA(line, hist string) core.Outcome {
 				interDue = needsRenewal(c)
 			}
 		}
-		r := startOnce(ev)
+		var r startResult
+		if ev.tick {
+			tags["maintenance-pass"] = true
+			if running == nil {
+				toks = append(toks, tok{s: "m:norun {"})
+				for j, ck := range caKeys {
+					if j > 0 {
+						toks = append(toks, tok{s: ","})
+					}
+					toks = append(toks, tok{s: ck.short + "="})
+					if v, ok := theStore.get(ck.key); ok {
+						nm.learnBlob(v)
+						toks = append(toks, nm.blobToks(v)...)
+					} else {
+						toks = append(toks, tok{s: "-"})
+					}
+				}
+				toks = append(toks, tok{s: "}"})
+				continue
+			}
+			toks = append(toks, tok{s: "m:"})
+			r = tickOnce(running, ev)
+			if r.kind != "ok" {
+				stopRunning() // the process died
+				running, stopRunning = nil, func() {}
+			}
+		} else {
+			stopRunning() // a new start-up: the old process is gone
+			var stop func()
+			r, stop = startOnce(ev)
+			running, stopRunning = nil, func() {}
+			if r.kind == "ok" {
+				running, stopRunning = r.app, stop
+			} else {
+				stop()
+			}
+		}
 		log := theStore.log
 		fired := ev.fault && ev.idx <= len(log)
 		if fired {
 			anyFault = true
 			tags["fault:"+ev.mode] = true
 			tags["fault-at:"+log[ev.idx-1].kind+":"+shortKey(log[ev.idx-1].key)] = true
+			if ev.tick {
+				tags["maintenance-pass-interrupted:"+ev.mode] = true
+			}
+			if ev.mode == "fa" && r.kind == "ok" && log[ev.idx-1].kind == "S" && shortKey(log[ev.idx-1].key) == "ic" {
+				unsynced = true
+				tags["swallowed-cert-write-error-after-effect"] = true
+			}
 		}
 		for _, op := range log {
 			if op.kind == "S" {
@@ -860,7 +952,7 @@ func runCA(line, hist string) core.Outcome {
 		rkNow, _ := theStore.get(caKeys[1].key)
 		icNow, icNowOK := theStore.get(caKeys[2].key)
 		ikNow, _ := theStore.get(caKeys[3].key)
-		if !fired {
+		if !fired && !ev.tick {
 			// an uninterrupted start-up on whatever earlier (interrupted) start-ups left behind
 			switch r.kind {
 			case "ok":
